@@ -84,6 +84,10 @@ func (p *Program) Harnesses(prefix string) []*Harness {
 						h.QuickOnly = true
 					case "config":
 						h.Configs = f[1:]
+					case "configq":
+						h.ConfigsQuick = f[1:]
+					case "solver":
+						h.FreshSolver = len(f) > 1 && f[1] == "fresh"
 					}
 				}
 			}
